@@ -122,6 +122,13 @@ class DocActions(object):
 
     self._engine.load_table(actions.TableData(table_id, row_ids, column_values))
 
+    # As in BulkAddRecord: explicit values given to trigger-formula columns stay as given (in
+    # particular when an undo brings the replaced data back).
+    for col_id in column_values:
+      col = table.get_column(col_id)
+      if not col.is_formula():
+        self._engine.prevent_recalc(col.node, row_ids, should_prevent=True)
+
   #----------------------------------------
   # Actions on columns.
   #----------------------------------------
